@@ -1284,17 +1284,16 @@ func (r *Resolvable) walkNode(node Node, value *astjson.Value) bool {
 }
 
 func (r *Resolvable) walkObject(obj *Object, parent *astjson.Value) (hasError bool) {
-	if obj.Unresolvable {
+	if obj.Unresolvable && !r.render() {
 		// The object selection set was dropped during planning because the abstract type
 		// has no possible runtime types able to provide the requested fields.
-		// The field could never be resolved, so we always fail, regardless of the data.
-		if !r.render() {
-			fieldName := ""
-			if len(obj.Path) > 0 {
-				fieldName = obj.Path[len(obj.Path)-1]
-			}
-			r.addError(fmt.Sprintf("Unable to resolve field '%s' of abstract type '%s': no runtime types are able to provide the requested fields.", fieldName, obj.TypeName), obj.Path)
+		// The field could never be resolved, so the pre-walk always fails, regardless of the data.
+		// The print walk then renders the position from the data the pre-walk left behind (null).
+		fieldName := ""
+		if len(obj.Path) > 0 {
+			fieldName = obj.Path[len(obj.Path)-1]
 		}
+		r.addError(fmt.Sprintf("Unable to resolve field '%s' of abstract type '%s': no runtime types are able to provide the requested fields.", fieldName, obj.TypeName), obj.Path)
 		return r.err()
 	}
 	r.enclosingTypeNames = append(r.enclosingTypeNames, obj.TypeName)
@@ -1920,10 +1919,6 @@ func (r *Resolvable) walkArray(arr *Array, value *astjson.Value) bool {
 		r.popArrayPathElement()
 		if err {
 			if (arr.Item.NodeKind() == NodeKindObject || arr.Item.NodeKind() == NodeKindArray) && arr.Item.NodeNullable() {
-				if r.render() {
-					// An item that fails without printing anything (unresolvable object) still needs a value.
-					r.printBytes(null)
-				}
 				value.SetArrayItem(r.astjsonArena, i, astjson.NullValue)
 				continue
 			}
